@@ -470,3 +470,61 @@ pub fn failed_messages_by_rule(record: &Value) -> BTreeMap<String, BTreeSet<Stri
     }
     res
 }
+
+
+/// JUnit counters: (total tests, total failures) declared on <testsuites>, and per <testsuite> (name, failures attr)
+pub fn parse_junit_counts(text: &str) -> Result<(Option<usize>, Option<usize>, Vec<(String, Option<usize>)>), String> {
+    use quick_xml::events::Event;
+    let mut rd = quick_xml::Reader::from_str(text);
+    let attr = |e: &quick_xml::events::BytesStart, k: &str| -> Option<String> {
+        e.attributes().flatten().find(|a| a.key.as_ref() == k.as_bytes()).and_then(|a| a.unescape_value().ok().map(|v| v.to_string()))
+    };
+    let (mut tests, mut fails, mut suites) = (None, None, vec![]);
+    loop {
+        match rd.read_event() {
+            Err(e) => return Err(format!("XML error: {}", e)),
+            Ok(Event::Eof) => break,
+            Ok(Event::Start(e)) | Ok(Event::Empty(e)) => {
+                let name = String::from_utf8_lossy(e.name().as_ref()).to_string();
+                if name == "testsuites" {
+                    tests = attr(&e, "tests").and_then(|x| x.parse().ok());
+                    fails = attr(&e, "failures").and_then(|x| x.parse().ok());
+                } else if name == "testsuite" {
+                    suites.push((attr(&e, "name").unwrap_or_default(), attr(&e, "failures").and_then(|x| x.parse().ok())));
+                }
+            }
+            Ok(_) => {}
+        }
+    }
+    Ok((tests, fails, suites))
+}
+
+/// the counters of a JUnit document must describe its own test cases
+pub fn junit_counter_problems(text: &str) -> Vec<String> {
+    let mut out = vec![];
+    let (cases, counts) = match (parse_junit(text), parse_junit_counts(text)) {
+        (Ok(a), Ok(b)) => (a, b),
+        _ => return vec!["not well-formed".into()],
+    };
+    let (tests, fails, suites) = counts;
+    if let Some(t) = tests {
+        if t != cases.len() {
+            out.push(format!("testsuites tests={} but {} test cases", t, cases.len()));
+        }
+    }
+    let nf = cases.iter().filter(|c| c.mark == "fail").count();
+    if let Some(f) = fails {
+        if f != nf {
+            out.push(format!("testsuites failures={} but {} failing test cases", f, nf));
+        }
+    }
+    for (name, f) in suites {
+        let n = cases.iter().filter(|c| c.suite == name && c.mark == "fail").count();
+        if let Some(f) = f {
+            if f != n {
+                out.push(format!("testsuite {} failures={} but {} failing test cases", name, f, n));
+            }
+        }
+    }
+    out
+}
